@@ -802,3 +802,15 @@ package meta
 //@   ensures [partition_view_reaches_the_cluster_number] ptNum >= viewLen ==> viewLen + n == ptNum
 //@   loop 1
 //@     invariant ptId == viewLen + n && (ptNum >= viewLen ==> ptId <= ptNum)
+
+// ================================================================ C15: a command picks its object independently of map order
+// DROP SUBSCRIPTION without a retention policy name removes the subscription from ONE policy of the database. Which one
+// must be the same on every replica: the policies are walked in name order (a walk in hash-map order lets two replicas
+// applying the same log drop from different policies). The branches that clear every policy may walk the map.
+//@ prop C15
+//@ func (*Data).DropSubscription
+//@   ghost sorted bool = false
+//@   call sort.Strings
+//@     set sorted = true
+//@   store RetentionPolicyInfo.Subscriptions
+//@     requires [single_drop_without_policy_name_walks_the_policies_in_name_order] (old(database) != "" && old(name) != "" && old(rp) == "") ==> sorted
